@@ -72,6 +72,15 @@ type State struct {
 	calllog  []string
 	globalsInit map[*ssa.Global]bool
 	id       int
+	asserts  []pendAssert
+}
+
+type pendAssert struct {
+	c     *Term
+	site  string
+	msg   string
+	pos   string
+	stack []string
 }
 
 func (st *State) clone() *State {
@@ -93,6 +102,7 @@ func (st *State) clone() *State {
 		unknownBranch: st.unknownBranch,
 		calllog: append([]string(nil), st.calllog...),
 		globalsInit: make(map[*ssa.Global]bool, len(st.globalsInit)),
+		asserts: append([]pendAssert(nil), st.asserts...),
 	}
 	for k, v := range st.heap {
 		n.heap[k] = v
